@@ -62,6 +62,7 @@ type report struct {
 	Census     []censusHit `json:"census"`
 	Files      int         `json:"files"`
 	ClockSites int         `json:"clock_sites"` // time.Now/Since/Until/Sleep calls put behind the simulated clock
+	SyncSites  int         `json:"sync_sites"`  // yield points just before / after a statement that calls into sync or sync/atomic
 	RandSites  int         `json:"rand_sites"`  // math/rand package-level calls put behind the simulated source
 }
 
@@ -212,7 +213,52 @@ func instrumentFile(p *packages.Package, f *ast.File, fn string, pristine bool) 
 		}
 		return fnObj.Name(), true
 	}
+	// touchesSync: the statement itself (not the bodies nested in it) calls
+	// into package sync or sync/atomic. The yield points just before and just
+	// after such a statement are where atomicity violations open their windows
+	// ("checked under the read lock, acted under the write lock"; "marker
+	// published, contents not yet"), so they get a site kind of their own and
+	// some runs preempt nowhere else.
+	touchesSync := func(st ast.Stmt) bool {
+		found := false
+		var visit func(n ast.Node) bool
+		visit = func(n ast.Node) bool {
+			if found || n == nil {
+				return false
+			}
+			switch x := n.(type) {
+			case *ast.BlockStmt, *ast.FuncLit:
+				return false
+			case *ast.CallExpr:
+				if sel, ok := x.Fun.(*ast.SelectorExpr); ok {
+					if sl := info.Selections[sel]; sl != nil {
+						if fnObj, ok := sl.Obj().(*types.Func); ok && fnObj.Pkg() != nil && (fnObj.Pkg().Path() == "sync" || fnObj.Pkg().Path() == "sync/atomic") {
+							found = true
+						}
+					} else if id, ok := sel.X.(*ast.Ident); ok {
+						if pn, ok := info.Uses[id].(*types.PkgName); ok && (pn.Imported().Path() == "sync/atomic" || pn.Imported().Path() == "sync") {
+							found = true
+						}
+					}
+				}
+			}
+			return !found
+		}
+		switch x := st.(type) {
+		case *ast.IfStmt:
+			if x.Init != nil {
+				ast.Inspect(x.Init, visit)
+			}
+			ast.Inspect(x.Cond, visit)
+		case *ast.ForStmt, *ast.RangeStmt, *ast.SwitchStmt, *ast.TypeSwitchStmt, *ast.SelectStmt, *ast.BlockStmt, *ast.LabeledStmt:
+			// headers of loops and switches: not worth the special case
+		default:
+			ast.Inspect(st, visit)
+		}
+		return found
+	}
 	stmts := func(list []ast.Stmt, firstKind string) {
+		prevSync := false
 		for i, st := range list {
 			switch st.(type) {
 			case *ast.CaseClause, *ast.CommClause:
@@ -222,6 +268,12 @@ func instrumentFile(p *packages.Package, f *ast.File, fn string, pristine bool) 
 			if i == 0 && firstKind != "" {
 				kind = firstKind
 			}
+			thisSync := touchesSync(st)
+			if thisSync || prevSync {
+				kind = "sync"
+				rep.SyncSites++
+			}
+			prevSync = thisSync
 			add(st.Pos(), fmt.Sprintf("verifsim_.Yield(%d); ", newSite(fset, st.Pos(), kind)))
 			rep.Yields++
 			// sync bracketing
@@ -467,6 +519,8 @@ func writeSites() {
 			k = 1
 		case "loop":
 			k = 2
+		case "sync":
+			k = 16
 		}
 		fmt.Fprintf(&b, "%d, ", k)
 	}
